@@ -281,35 +281,47 @@ def _get_path(grid, obj, paths):
         return NOT_FOUND
 
 
-def _generate_filter_in_python(node, def_filter):
+def _generate_filter_in_python(node, def_filter, consts=None):
+    '''
+    Literal values of the filter are never printed in the generated source:
+    they are stored in consts and the source refers to them as _c[i].
+    '''
+    if consts is None:
+        consts = []
     if isinstance(node, FilterPath):
+        # tag names are identifiers ([a-z][a-zA-Z0-9_]*, checked by the grammar)
         def_filter.append("_get_path(_grid, _entity, %s)" % node.path)
     elif isinstance(node, FilterBinary):
         def_filter.append("(")
-        def_filter.extend(_generate_filter_in_python(node.left, []))
+        def_filter.extend(_generate_filter_in_python(node.left, [], consts))
         def_filter.append(" " + node.op + " ")
-        def_filter.extend(_generate_filter_in_python(node.right, []))
+        def_filter.extend(_generate_filter_in_python(node.right, [], consts))
         def_filter.append(")")
     elif isinstance(node, FilterUnary):
         if node.op == "has":
             def_filter.append('(id(')
-            def_filter.extend(_generate_filter_in_python(node.right, []))
+            def_filter.extend(_generate_filter_in_python(node.right, [], consts))
             def_filter.append(') !=  id(NOT_FOUND))')
         elif node.op == "not":
             def_filter.append('(id(')
-            def_filter.extend(_generate_filter_in_python(node.right, []))
+            def_filter.extend(_generate_filter_in_python(node.right, [], consts))
             def_filter.append(") == id(NOT_FOUND))")
         else:  # pragma: no cover
             assert 0
     else:
-        def_filter.append(repr(node))
+        consts.append(node)  # a literal: data, never code
+        def_filter.append("_c[%d]" % (len(consts) - 1))
     return def_filter
 
 
 class _FnWrapper():
-    def __init__(self, fun_name, function_template):
+    def __init__(self, fun_name, function_template, consts=()):
         self.fun_name = fun_name
-        exec(function_template, globals(), globals())
+        # _consts is only visible while the definition is executed (it is the
+        # default value of the function's _c parameter)
+        namespace = {'_consts': tuple(consts)}
+        exec(function_template, globals(), namespace)
+        globals()[fun_name] = namespace[fun_name]
 
     def __del__(self):  # pragma: no cover
         del globals()[self.fun_name]  # Remove generated function if the LRU ask that
@@ -319,12 +331,13 @@ class _FnWrapper():
 
 @lru_cache(maxsize=FILTER_CACHE_LRU_SIZE)
 def _filter_function(filter):
-    def_filter = _generate_filter_in_python(parse_filter(filter)._head, [])
+    consts = []
+    def_filter = _generate_filter_in_python(parse_filter(filter)._head, [], consts)
     # next() on the shared counter allocates the name in one atomic step
     fun_name = "_gen_hsfilter_" + str(next(_id_function))
-    function_template = "def %s(_grid, _entity):\n  return " % fun_name + "".join(def_filter)
+    function_template = "def %s(_grid, _entity, _c=_consts):\n  return " % fun_name + "".join(def_filter)
     print("\nGenerate:\n# " + filter + "\n" + function_template)  # FIXME: debug
-    return _FnWrapper(fun_name, function_template)
+    return _FnWrapper(fun_name, function_template, consts)
 
 
 def filter_function(filter):
